@@ -45,6 +45,15 @@ def run(tier, seed, replay=None):
                                 {"a": "Deq"}, {"a": "Deq"}, {"a": "TargetRecv"}, {"a": "TargetRecv"}, {"a": "TargetRecv"}, {"a": "TargetRecv"}, {"a": "TargetRecv"},
                                 {"a": "TargetRecv"}, {"a": "TargetRecv"}, {"a": "Crash", "off": 2, "db": 1}, {"a": "SrcEmit", "item": {"t": "w", "d": -1, "id": 3}}, {"a": "Parse"}]]},
         }
+        sub["rump"] = {"seed": seed, "trace": sc.path("sub-rump.ndjson"), "dir": sc.dir, "src_pw": "src-SECRET-pw", "tgt_pw": "tgt-SECRET-pw", "cases": [
+            {"id": 1, "seed": seed, "pre": [{"db": 1, "name": "BIG"}],
+             "cfg": {"scan_key_number": 2, "big_threshold": 60, "key_exists": "rewrite", "tdb": -1, "fdb_white": [], "fdb_black": [], "fkey_white": [], "fkey_black": ["z"],
+                     "key_file": False, "target_version": "5.0.7"},
+             "keys": [{"id": 1, "db": 0, "name": "a", "kind": "string", "n": 1, "elem": 5, "ttl": 0, "vanish": "never", "scanned": True, "passes": True},
+                      {"id": 2, "db": 1, "name": "BIG", "kind": "list", "n": 12, "elem": 30, "ttl": 9000, "vanish": "never", "scanned": True, "passes": True},
+                      {"id": 3, "db": 1, "name": "c", "kind": "hash", "n": 3, "elem": 5, "ttl": 0, "vanish": "pttl", "scanned": True, "passes": True},
+                      {"id": 4, "db": 1, "name": "zz", "kind": "string", "n": 1, "elem": 5, "ttl": 5000, "vanish": "never", "scanned": True, "passes": False}],
+             "dbs": [{"db": 0, "pages": [[1]]}, {"db": 1, "pages": [[2, 3], [], [4]]}]}]}
         sub["supervisor"] = {"seed": seed, "max_retries": 2, "orders": 2, "cases": [
             {"scn": [["master", "slave", "slave"]], "first": 1, "masters": [1]},
             {"scn": [["slave", "master", "slave"]], "first": 2, "masters": [2]},            # fail-over to a remembered slave
